@@ -25,6 +25,7 @@ LEAF_FOR = [
     ('trashcli.put.core.candidate.Candidate.shrink_user', 'shrink_user'),
     ('sort/', 'sort'),
     ('parse_indexes', 'parse_indexes'),
+    ('trashcli.restore.trashed_file.TrashedFile.original_location_matches_path', 'scope'),
 ]
 
 _CACHE = {}
